@@ -19,7 +19,7 @@ func init() {
 	Register(&Profile{Name: "determinism-real", Prop: "C17", Weight: 3, Quick: 400, Thorough: 8000, Fn: determinismReal})
 	SetMeta("C17", &Meta{
 		Level: "exploration",
-		Rule: "determinism-mem: the same inputs are Created on clones of the simulated disk: repeated r>=5 times in one process (samples Go's map iteration order), across goroutine counts with driven worker schedules, with the input list permuted (PAR2: all permutations for <= 4 files, random ones otherwise) and with redundant absolute spellings (//, /./, /../); determinism-real: the production file layer and the par binary on a tmpfs directory, invoked from the set's directory, its parent and an unrelated directory with relative, absolute, ./x, d//x, d/./x and d/../d/x spellings. Oracle: the set of files written and their bytes equal those of the canonical run. Non-trivial: at least two variants beyond plain repetition were compared; distinct by (format, variation kinds, file count, S, R classes).",
+		Rule:  "determinism-mem: the same inputs are Created on clones of the simulated disk: repeated r>=5 times in one process (samples Go's map iteration order), across goroutine counts with driven worker schedules, with the input list permuted (PAR2: all permutations for <= 4 files, random ones otherwise) and with redundant absolute spellings (//, /./, /../); determinism-real: the production file layer and the par binary on a tmpfs directory, invoked from the set's directory, its parent and an unrelated directory with relative, absolute, ./x, d//x, d/./x and d/../d/x spellings. Oracle: the set of files written and their bytes equal those of the canonical run. Non-trivial: at least two variants beyond plain repetition were compared; distinct by (format, variation kinds, file count, S, R classes).",
 		Assumptions: []string{
 			"Go's map iteration order cannot be pinned by a seed: it is sampled by repetition; a violation caused by it is replayed in repeat-until-divergence mode",
 			"PAR1 numbering follows the order of the input list by design, so PAR1 inputs are not permuted",
@@ -331,8 +331,19 @@ func determinismReal(r *Run) {
 		return rw.Real("/elsewhere")
 	}
 	var canon map[string][]byte
+	leftovers := 0
 	run := func(label string, cwdKind, style int, cli bool, g int) {
-		rw.removeArchive()
+		switch leftovers {
+		case 0:
+			rw.removeArchive()
+		case 2:
+			// the archive files of the previous run stay, and are longer
+			// than what will be written (an older, bigger generation)
+			for name, b := range rw.archiveFiles() {
+				junk := expandContent(ckRandom, uint64(len(b)), 1+len(b)/2, 4)
+				os.WriteFile(filepath.Join(setDir, name), append(append([]byte(nil), b...), junk...), 0644)
+			}
+		}
 		index := spellFrom(cwdKind, style, w.Base+ext)
 		var files []string
 		for _, f := range w.Files {
@@ -402,7 +413,12 @@ func determinismReal(r *Run) {
 		style := t.Draw(6, "style")
 		cli := ParBin() != "" && t.Bool(1, 2, "cli")
 		g := []int{1, 2, 3, 8}[t.Draw(4, "g")]
-		label := fmt.Sprintf("cwd=%s spelling=%s cli=%v G=%d", []string{"set-dir", "parent", "unrelated"}[cwdKind], []string{"relative", "absolute", "./x", "d//x", "d/./x", "d/../d/x"}[style], cli, g)
+		leftovers = t.Pick([]int{4, 1, 1}, "leftovers")
+		if leftovers > 0 {
+			r.Probe("create-over-existing-archive")
+			vars = append(vars, fmt.Sprintf("leftovers%d", leftovers))
+		}
+		label := fmt.Sprintf("leftovers=%d cwd=%s spelling=%s cli=%v G=%d", leftovers, []string{"set-dir", "parent", "unrelated"}[cwdKind], []string{"relative", "absolute", "./x", "d//x", "d/./x", "d/../d/x"}[style], cli, g)
 		switch cwdKind {
 		case 1:
 			r.Probe("cwd-parent")
